@@ -25,6 +25,9 @@ pub fn backends_strategy(with_rln: bool) -> BoxedStrategy<Vec<BackendKind>> {
 
 /// run a history on every backend of the case; returns the failure (if any)
 pub fn run_history(ctx: &Ctx, case: &TreeCase, focus: Focus, batch_panic_is_violation: bool, o: &mut Outcome) {
+    // the RLN byte API reads its arguments / writes its results through readers and writers that move
+    // 1, 7 or 33 bytes per call, or everything at once (chosen from the case content)
+    crate::gens::set_io_style((case_hash(case) % 4) as u8);
     let only = std::env::var("VERIF_DEBUG_BACKENDS").ok();
     for kind in &case.backends {
         if let Some(f) = &only {
